@@ -202,6 +202,7 @@ CASES += [
  ("C08np", "basic/bias.py", "        centered = ratings.data - g_bias\n", "        centered = ratings.data - g_bias\n        _logger.debug(\"centred\")\n", "keep"),
  ("C04sc", "basic/popularity.py", "        scores[mask] = self.item_scores_[inums[mask]]", "        scores[mask] = self.item_scores_[inums][mask]", "outside"),
  ("C04sc", "hpf.py", "        item_mask = item_nums >= 0", "        item_mask = item_nums > 0", "break"),
+ ("C04sc", "implicit.py", "        if mult_first:\n            prod = prod[good_inos]\n", "", "break"),
  ("C04sc", "flexmf/_base.py", "        full_scores[scorable_mask] = scores.cpu()", "        full_scores[: len(i_cols)] = scores.cpu()", "break"),
  ("C04sc", "flexmf/_base.py", "        i_cols = i_cols[scorable_mask]\n        i_tensor = torch.from_numpy(i_cols)", "        i_tensor = torch.from_numpy(i_cols)", "break"),
  ("C04sc", "funksvd.py", "        i_feats = self.item_features_[item_nums[item_mask], :]", "        known = item_nums[item_mask]\n        i_feats = self.item_features_[known, :]", "keep"),
